@@ -351,26 +351,38 @@ int main(int argc, char** argv) {
       uint64_t h = canonGeomHash(got.GetMeshGL64());
       if (c.distinct(h) && !got.IsEmpty()) c.nontrivial(h);
     };
-    runHist(none, "lazy");
-    runHist(none, "lazy", true);
     auto in = e.internal();
-    // one deviation
-    for (int i : in)
-      for (int d = 1; d <= 4; ++d) {
-        std::vector<int> dev = none;
-        dev[i] = d;
-        runHist(dev, std::string(DEVN[d]) + "#" + std::to_string(i));
-      }
-    if (devBound >= 2)
-      for (size_t x = 0; x < in.size(); ++x)
-        for (size_t y = x + 1; y < in.size(); ++y)
-          for (int d1 = 1; d1 <= 4; ++d1)
-            for (int d2 = 1; d2 <= 4; ++d2) {
-              std::vector<int> dev = none;
-              dev[in[x]] = d1;
-              dev[in[y]] = d2;
-              runHist(dev, std::string(DEVN[d1]) + "#" + std::to_string(in[x]) + "," + DEVN[d2] + "#" + std::to_string(in[y]));
-            }
+    // two base histories: every intermediate handle kept alive (named variables), and every intermediate dropped right
+    // after its last use (temporaries of a one-line expression - only then may the evaluator collapse nested nodes);
+    // deviations are applied to each base
+    for (int base = 0; base < 2; ++base) {
+      std::vector<int> b0 = none;
+      if (base == 1)
+        for (int i : in) b0[i] = DROP_EARLY;
+      const std::string bn = base ? "temporaries" : "named";
+      runHist(b0, bn);
+      runHist(b0, bn, true);
+      for (int i : in)
+        for (int d = 1; d <= 4; ++d) {
+          std::vector<int> dev = b0;
+          int nd = d;
+          if (base == 1 && d == DROP_EARLY) nd = NONE;  // in the drop-all base the 4th deviation KEEPS this handle
+          if (dev[i] == nd) continue;
+          dev[i] = nd;
+          runHist(dev, bn + "," + (base == 1 && d == DROP_EARLY ? "keep" : DEVN[nd]) + "#" + std::to_string(i));
+          if (base == 1 && d == DROP_EARLY) runHist(dev, bn + ",keep#" + std::to_string(i), true);
+        }
+      if (devBound >= 2)
+        for (size_t x = 0; x < in.size(); ++x)
+          for (size_t y = x + 1; y < in.size(); ++y)
+            for (int d1 = 1; d1 <= 4; ++d1)
+              for (int d2 = 1; d2 <= 4; ++d2) {
+                std::vector<int> dev = b0;
+                dev[in[x]] = (base == 1 && d1 == DROP_EARLY) ? NONE : d1;
+                dev[in[y]] = (base == 1 && d2 == DROP_EARLY) ? NONE : d2;
+                runHist(dev, bn + "," + std::to_string(d1) + "#" + std::to_string(in[x]) + "," + std::to_string(d2) + "#" + std::to_string(in[y]));
+              }
+    }
     // evaluating the same handle twice and from a copy gives the same object
     {
       Manifold again = evaluate(e, L, none, false);
@@ -458,29 +470,56 @@ int main(int argc, char** argv) {
                           }});
         }
     const uint64_t nbars = bars.size();
-    R.phase("lazy-bbox", 6 * nbars * 3, 1, [&](uint64_t idx, Ctx& c) {
-      int op = idx % 3;
-      const Bar& b = bars[(idx / 3) % nbars];
-      const Leaf& a = L[idx / 3 / nbars];
-      std::string name = a.name + OPN[op] + b.name;
-      c.describe(name);
-      Manifold lazyB = b.lazy();
+    // siblings: each general-position leaf (shrunk) moved to the FAR END of the rotated bar, where the true solids overlap
+    // but a wrongly rotated bounding box does not reach; plus the leaf at its own place
+    R.phase("lazy-bbox", 6 * nbars * 3 * 2, 1, [&](uint64_t idx, Ctx& c) {
+      int farEnd = idx % 2;
+      int op = (idx / 2) % 3;
+      const Bar& b = bars[(idx / 6) % nbars];
+      const Leaf& a0 = L[idx / 6 / nbars];
       Manifold forcedB = b.lazy();
       (void)forcedB.NumTri();
-      Manifold l = a.m.Boolean(lazyB, OPS[op]), r = a.m.Boolean(forcedB, OPS[op]);
-      Manifold l3 = Manifold::BatchBoolean({a.m, b.lazy(), L[(idx / 3 / nbars + 1) % 4].m}, OPS[op]);
-      Manifold r3 = Manifold::BatchBoolean({a.m, forcedB, L[(idx / 3 / nbars + 1) % 4].m}, OPS[op]);
+      Manifold am = a0.m;
+      if (farEnd) {
+        // centre of the bar's far third, read off the evaluated bar itself
+        Box bb = forcedB.BoundingBox();
+        MeshGL64 g = forcedB.GetMeshGL64();
+        vec3 far(0.0);
+        double best = -1;
+        for (size_t v = 0; v < g.vertProperties.size() / g.numProp; ++v) {
+          vec3 p(g.vertProperties[v * g.numProp], g.vertProperties[v * g.numProp + 1], g.vertProperties[v * g.numProp + 2]);
+          double d = la::length(p - vec3(0.1, -0.2, 0.15));
+          if (d > best) {
+            best = d;
+            far = p;
+          }
+        }
+        vec3 dir = la::normalize(far - vec3(0.1, -0.2, 0.15));
+        am = a0.m.Scale({0.5, 0.5, 0.5}).Translate(far - 0.6 * dir);
+        (void)am.NumTri();
+        (void)bb;
+      }
+      std::string name = a0.name + (farEnd ? "@far-end" : "") + OPN[op] + b.name;
+      c.describe(name);
+      Manifold l = am.Boolean(b.lazy(), OPS[op]), r = am.Boolean(forcedB, OPS[op]);
+      Manifold l2 = b.lazy().Boolean(am, OPS[op]), r2 = forcedB.Boolean(am, OPS[op]);
+      Manifold third = L[(idx / 6 / nbars + 1) % 4].m;
+      Manifold l3 = Manifold::BatchBoolean({am, b.lazy(), third}, OPS[op]);
+      Manifold r3 = Manifold::BatchBoolean({am, forcedB, third}, OPS[op]);
       long judged = 0;
-      std::string why = sameSolid(r, l, {&a.soup}, G + 1, judged);
+      std::string why = sameSolid(r, l, {}, G + 1, judged);
       if (!why.empty()) c.viol("lazybox:" + name, name, why);
-      std::string why3 = sameSolid(r3, l3, {&a.soup}, G + 1, judged);
+      std::string why2 = sameSolid(r2, l2, {}, G + 1, judged);
+      if (!why2.empty()) c.viol("lazybox-swapped:" + name, name, why2);
+      std::string why3 = sameSolid(r3, l3, {}, G + 1, judged);
       if (!why3.empty()) c.viol("lazybox3:" + name, name, why3);
-      c.count("transitions", 4);
+      c.count("transitions", 6);
       c.count("points_judged", judged);
+      if (!l.IsEmpty() && !(am ^ forcedB).IsEmpty()) c.count("overlapping_pairs");
       uint64_t h = canonGeomHash(l.GetMeshGL64());
       if (c.distinct(h) && !l.IsEmpty()) c.nontrivial(h);
       if (idx % 37 == 0) c.sample(name);
-    }, {"transitions", "points_judged"});
+    }, {"transitions", "points_judged", "overlapping_pairs"});
   }
   return R.finish();
 }
